@@ -72,6 +72,7 @@ Step0(st, e) ==
         IF e.tok = -1 THEN st
         ELSE LET s1 == [st EXCEPT !.got = Put(@, E, Append(SeqOf(st.got, E), e.tok))] IN
              IF ~DeliverOK(st, E, e.tok) THEN Flag(s1, "C02.item-duplicated-lost-reordered-or-leaked")
+             ELSE IF E \in st.eofSeen THEN Flag(s1, "C03.item-dequeued-after-EOF")
              ELSE s1
     [] e.ev = "cb" ->
         IF e.tok = -1 THEN
@@ -99,7 +100,6 @@ Step0(st, e) ==
            IF C.cb THEN Flag(s1, "C10.receive-allowed-after-setcallback")
            ELSE IF e.tok \notin Range(SeqOf(st.got, E)) \/ e.tok \in Get(st.returned, E, {})
                 THEN Flag(s1, "C02.receive-returned-unknown-or-duplicate-item")
-           ELSE IF E \in st.eofSeen THEN Flag(s1, "C03.item-received-after-EOF")
            ELSE s1
         ELSE IF e.res = "EOF" THEN
            LET s1 == [st EXCEPT !.eofSeen = @ \cup {E}, !.asked = IF Get(st.closeIn, E, "") = "error" THEN @ \cup {E} ELSE @,
